@@ -390,8 +390,8 @@ Print Assumptions C13_empty_valueerror.
    header and in notes/rstr.md).  The theorems below say that the translated code IS the hand model
    the theorems above are about.  A change of the translated methods changes gen_* and breaks these
    obligations; a change outside the accepted subset, or of the AST-pinned hand-modelled methods
-   (_parse_rfc, _parse_date_value, _parse_date), aborts the translator and poisons RstrGen.v. *)
-From V Require Import rstr.RstrGenBase gen.RstrGen rstr.RstrGenThm.
+   (_parse_date_value, _parse_date), aborts the translator and poisons RstrGen.v. *)
+From V Require Import rstr.RstrGenBase gen.RstrGen rstr.RstrGenThm rstr.RstrGenThm2.
 
 (* _freq_map / _weekday_map (dict literals of the class) and FREQNAMES *)
 Theorem C13_gen_tables : (forall v, g_lookup tbl_freq_map v = match freq_of v with Some f => GOk f | None => GExc XKey end)
@@ -433,3 +433,13 @@ Print Assumptions C13_gen_parse_rule.
 Theorem C13_gen_to_str : forall r, gen_to_str r = to_str r.
 Proof. exact gen_to_str_spec. Qed.
 Print Assumptions C13_gen_to_str.
+
+(* _parse_rfc as a whole: compatible / forceset / unfold flags, the "empty string" test, the unfold
+   loop (recognised verbatim, = unfold_lines o splitlines) or split(), the TZID regex (recognised
+   verbatim, = tzid_findall), upper-casing, the single-rule shortcut, the property loop over the
+   lines with its four value lists and DTSTART, and the rruleset assembly (rules, rdates, exrules,
+   exdates, compatible's extra rdate) or the single rule.  The is_ascii guard is the model's own. *)
+Theorem C13_gen_parse_rfc : forall ev o s, forallb is_ascii s = true ->
+  result_of_gres (gen_parse_rfc ev o s) = parse_rfc ev o s.
+Proof. exact gen_parse_rfc_spec. Qed.
+Print Assumptions C13_gen_parse_rfc.
